@@ -1,8 +1,9 @@
 """C01 - the converted one-liner behaves exactly like the source (E1, exhaustive exploration).
 
 Space  : every derivation of the statement grammar of vf/spaces/compose.py (27 simple feature atoms,
-         3 interrupts, 13 compound frames with block holes) with <= 3 statement nodes (quick) /
-         <= 4 (thorough), each under all 8 option combinations.
+         3 interrupts, 15 compound frames with block holes) with <= 3 statement nodes (quick) /
+         <= 4 (thorough), each under all 8 option combinations; plus a LENGTH SWEEP: a block of n simple
+         statements for every n up to twice the converter's chunk length + 10, in 7 kinds of block.
 Oracle : CPython must accept the source and run it to completion (else outside the fragment,
          counted); then for each configuration conversion returns, the text is one expression,
          eval in a fresh namespace writes the same stdout and leaves every user global equal;
@@ -17,7 +18,39 @@ PID = "C01"
 LEVEL = "exploration"
 
 
+def sweep_programs(maxlen):
+    """LENGTH SWEEP: a block of n consecutive simple statements for EVERY n in 1..maxlen, in each kind of block. The
+    lowering cuts long blocks into chunks (chain_call wrapper), so block length is a dimension of its own: an
+    off-by-one at a chunk boundary drops or duplicates exactly one statement of exactly one length."""
+    for n in range(1, maxlen + 1):
+        app = "".join("    r.append(%d)\n" % i for i in range(n))
+        yield "c01:sweep:module:%d" % n, "".join("v%d = %d\n" % (i, i) for i in range(n)) + "print(v%d)\n" % (n - 1)
+        yield "c01:sweep:func:%d" % n, "def f():\n    r = []\n" + app + "    return r\nprint(f())\n"
+        yield "c01:sweep:class:%d" % n, "class K:\n" + "".join("    v%d = %d\n" % (i, i) for i in range(n)) + "print(sorted(k for k in vars(K) if k[0] == 'v'))\n"
+        yield "c01:sweep:forbody:%d" % n, "r = []\nfor j in range(2):\n" + app + "print(r)\n"
+        yield "c01:sweep:whilebody:%d" % n, "r = []\nwhile len(r) < %d:\n" % n + app + "print(r)\n"
+        yield "c01:sweep:ifbody:%d" % n, "r = []\nif r == []:\n" + app + "else:\n" + app + "print(r)\n"
+        yield "c01:sweep:after-return-guard:%d" % n, "def f(a):\n    r = []\n    if a:\n        return r\n" + app + "    return r\nprint(f(0), f(1))\n"
+
+
+def sweep_bound():
+    core.ol()
+    import oneliner.utils as u
+
+    return 2 * int(getattr(u, "CHAIN_CALL_MAX_LENGTH", 50)) + 10
+
+
 def run_shard(shard):
+    if shard[0] == "sweep":
+        _, r, k, cfgs = shard
+        res = core.ShardResult()
+        for idx, (key, src) in enumerate(sweep_programs(sweep_bound())):
+            if idx % k != r:
+                continue
+            res.c["programs_generated"] += 1
+            res.c["sweep_programs"] += 1
+            progcheck.check_program(res, key, src, cfgs)
+        return res
     size, r, k, cfgs = shard
     res = core.ShardResult()
     for idx, (key, src) in enumerate(compose.programs(size)):
@@ -37,6 +70,8 @@ def shards(tier):
         k = {1: 1, 2: 16, 3: 256, 4: 2048}[size]
         for r in range(k):
             out.append((size, r, k, core.ALL_CFG))
+    for r in range(32):
+        out.append(("sweep", r, 32, core.ALL_CFG))
     return out
 
 
@@ -56,6 +91,7 @@ def main(tier, seed, collect=None):
         "max_statement_nodes": 3 if tier == "quick" else 4,
         "atoms": len(compose.SIMPLE),
         "frames": len(compose.FRAMES),
+        "length_sweep": "every block length 1..%d in 7 block kinds" % sweep_bound(),
         "programs_generated": c["programs_generated"],
         "configurations": [core.cfg_name(i) for i in core.ALL_CFG],
         "states": c["programs_generated"],
